@@ -940,7 +940,7 @@ class PositionArray(PosBase):
             else:
                 # attribute is stored as part of this in PositionArray
                 h5_sub_group = h5_group.create_group(a)
-                h5_sub_group.attrs["fieldname"] = a
+                h5_sub_group.attrs["fieldname"] = f"{h5_group.attrs['fieldname']}.{a}"
                 h5_sub_group.attrs["__class__"] = f"{attr.__class__.__module__}.{attr.__class__.__name__}"
                 memo[id(attr)] = f"{h5_group.attrs['fieldname']}.{a}"
                 attr._write(h5_sub_group, memo)  # Potential recursive call
@@ -1290,7 +1290,7 @@ class PositionDeltaArray(PosBase):
             else:
                 # attribute is stored as part of this in PositionDeltaArray
                 h5_sub_group = h5_group.create_group(a)
-                h5_sub_group.attrs["fieldname"] = a
+                h5_sub_group.attrs["fieldname"] = f"{h5_group.attrs['fieldname']}.{a}"
                 h5_sub_group.attrs["__class__"] = f"{attr.__class__.__module__}.{attr.__class__.__name__}"
                 memo[id(attr)] = f"{h5_group.attrs['fieldname']}.{a}"
                 attr._write(h5_sub_group, memo)  # Potential recursive call
@@ -1673,7 +1673,7 @@ class PosVelArray(PositionArray):
             else:
                 # attribute is stored as part of this in PosVelArray
                 h5_sub_group = h5_group.create_group(a)
-                h5_sub_group.attrs["fieldname"] = a
+                h5_sub_group.attrs["fieldname"] = f"{h5_group.attrs['fieldname']}.{a}"
                 h5_sub_group.attrs["__class__"] = f"{attr.__class__.__module__}.{attr.__class__.__name__}"
                 memo[id(attr)] = f"{h5_group.attrs['fieldname']}.{a}"
                 attr._write(h5_sub_group, memo)  # Potential recursive call
@@ -1813,7 +1813,7 @@ class PosVelDeltaArray(PositionDeltaArray):
             else:
                 # attribute is stored as part of this in PosVelArray
                 h5_sub_group = h5_group.create_group(a)
-                h5_sub_group.attrs["fieldname"] = a
+                h5_sub_group.attrs["fieldname"] = f"{h5_group.attrs['fieldname']}.{a}"
                 h5_sub_group.attrs["__class__"] = f"{attr.__class__.__module__}.{attr.__class__.__name__}"
                 memo[id(attr)] = f"{h5_group.attrs['fieldname']}.{a}"
                 attr._write(h5_sub_group, memo)  # Potential recursive call
